@@ -170,37 +170,23 @@ def modelMo (o : Mo) : String :=
   let groups := (List.range 6).map fun (r : Nat) => " / ".intercalate (perPlane.map fun res => showInts (res.getD r []))
   toString o.w ++ " " ++ toString o.h ++ " : " ++ " | ".intercalate groups
 
-/-- Spec: max / min over {self} ∪ in-image neighbours (neighbourhood from the structuring element) -/
-def specMorph (o : Mo) (dilation : Bool) (p : List Int) : List Int :=
-  let pts := (List.range (o.w * o.h))
-  pts.map fun (i : Nat) =>
-    let px : Int := (i % o.w : Nat); let py : Int := (i / o.w : Nat)
-    pts.foldl (fun acc (j : Nat) =>
-      let qx : Int := (j % o.w : Nat); let qy : Int := (j / o.w : Nat)
-      if isNeighbour o.ker o.ks o.cy o.cx px py qx qy then
-        (if dilation then max acc (p.getD j 0) else min acc (p.getD j 0)) else acc) (p.getD i 0)
+def specMorph (o : Mo) (dilation : Bool) (p : List Int) : List Int := morphSpec o.w o.h o.ker o.ks o.cy o.cx dilation p
 
-def symmetricSE (o : Mo) : Bool :=
-  let pts := (List.range (o.w * o.h))
-  pts.all fun (i : Nat) => pts.all fun (j : Nat) =>
-    let px : Int := (i % o.w : Nat); let py : Int := (i / o.w : Nat)
-    let qx : Int := (j % o.w : Nat); let qy : Int := (j / o.w : Nat)
-    i == j || isNeighbour o.ker o.ks o.cy o.cx px py qx qy == isNeighbour o.ker o.ks o.cy o.cx qx qy px py
+def symmetricSE (o : Mo) : Bool := pointSymmetric o.ker o.ks o.cy o.cx
 
 def leAll (a b : List Int) : Bool := a.length == b.length && (a.zip b).all (fun (x, y) => x ≤ y)
 
 def judgeMoPlane (o : Mo) (sym : Bool) (src : List Int) (r : List (List Int)) : Option String :=
   let dil := r.getD 0 []; let ero := r.getD 1 []; let opn := r.getD 2 []; let cls := r.getD 3 []
   let opn2 := r.getD 4 []; let cls2 := r.getD 5 []
-  let sd := iterate (specMorph o true) o.iters src
-  let se := iterate (specMorph o false) o.iters src
-  if dil ≠ sd then some "dilate-is-max-over-neighbourhood"
-  else if ero ≠ se then some "erode-is-min-over-neighbourhood"
-  else if !(leAll ero src && leAll src dil) then some "erode<=src<=dilate"
+  if !(leAll ero src && leAll src dil) then some "erode<=src<=dilate"
+  else if !sym then none            -- the property speaks about symmetric structuring elements only
+  else if dil ≠ iterate (specMorph o true) o.iters src then some "dilate-is-max-over-neighbourhood"
+  else if ero ≠ iterate (specMorph o false) o.iters src then some "erode-is-min-over-neighbourhood"
   else if opn ≠ specMorph o true (specMorph o false src) then some "opening-is-dilate-of-erode"
   else if cls ≠ specMorph o false (specMorph o true src) then some "closing-is-erode-of-dilate"
-  else if sym && !(leAll opn src && leAll src cls) then some "opening<=src<=closing"
-  else if sym && (opn2 ≠ opn ∨ cls2 ≠ cls) then some "opening-closing-idempotent"
+  else if !(leAll opn src && leAll src cls) then some "opening<=src<=closing"
+  else if opn2 ≠ opn ∨ cls2 ≠ cls then some "opening-closing-idempotent"
   else none
 
 def judgeMo (o : Mo) (obs : String) : String :=
